@@ -491,15 +491,19 @@ Faulty(n) == faultT >= 0 /\ Cur.t - faultT <= 2 * idle[n] + 1000
 
 (* idle expiry is behaviour, not a fault: without keep-alives a quiet       *)
 (* connection expires on both sides after the idle timeout                  *)
-LastActivity(g) ==
-  LET S == {i \in (runStart + 1)..(l - 1) : Has(Rec[i], "gid") /\ Rec[i].gid = g} IN
+(* events that witness a datagram of connection g received by n at that very moment *)
+NetEv == {"dial.tls", "in.tls", "hs.ack_read", "hs.ack_confirmed", "rpc.recv", "srv.accept", "srv.decoded"}
+LastActivity(n, g) ==
+  LET S == {i \in (runStart + 1)..(l - 1) :
+              Has(Rec[i], "gid") /\ Rec[i].gid = g /\ Rec[i].ev \in NetEv /\ Rec[i].node = n} IN
   IF S = {} THEN 0 ELSE Rec[Max(S)].t
 
 QuietExpiry(n, g) ==
   LET o == Other(n, g) IN
   /\ ka[n] = 0
   /\ IF o \in DOMAIN ka THEN ka[o] = 0 ELSE TRUE
-  /\ Cur.t >= LastActivity(g) + idle[n]
+  \* QUIC: the smaller of the two ends' timeouts, counted from n's last exchange on g
+  /\ Cur.t + 500 >= LastActivity(n, g) + (IF o \in DOMAIN idle THEN Min2(idle[n], idle[o]) ELSE 0)
 
 TrHClosing ==
   /\ IsEvent("h.closing")
